@@ -63,6 +63,14 @@ def rule_regex_languages(ctx, rule_id, directions, only=None):
             where = fi.qualname if fi else "<module>"
             code = regexnfa.nfa_of(p, fl, mode)
             ref = regexnfa.nfa_of(ent["ref"], 0, "fullmatch")
+            n += 1
+            cat = regexast.catastrophic_repeats(p, fl)
+            run.check(not cat, rule_id, key(m.relpath, where, "language:%s:linear-time" % ent["id"]),
+                      "the %s regex has nested unbounded repetition with an ambiguous split: on a long non-matching input the "
+                      "backtracking matcher tries every split (time doubles every few characters) -- validation of such a name "
+                      "does not terminate in practice" % ent["id"], file=m.relpath, line=call.lineno, function=where,
+                      expected="no `(x y*)+` / `(y+)*` with overlapping alphabets (an equivalent flat class exists)",
+                      found="pattern %r: %s" % (p, cat[0] if cat else None))
             for d in directions:
                 n += 1
                 c = key(m.relpath, where, "language:%s:%s" % (ent["id"], d))
